@@ -36,7 +36,12 @@ def _is_node_class(ex, ci) -> bool:
 
 @lib.hook('construct_special')
 def _construct_under_binder(ex, st, ci, args, kwargs, node):
-    if not _mine(ex) or not st.bound or st.spec:
+    if not _mine(ex) or st.spec:
+        return None
+    if not st.bound:
+        if ex.repo.is_subclass(ci.name, 'LogLogit'):
+            # paths that build different kinds of log-logit nodes are kept apart at joins (see below)
+            st.ghost[('c05c-built', ci.name)] = True
         return None
     if ci.name == 'ConditionalTermTuple':
         vals = dict(zip(('condition', 'term'), args))
